@@ -154,6 +154,30 @@ func Run(cs Case, c *vrt.Ctx) {
 		return
 	}
 	c.Sample(map[string]any{"recipe": cs.Path.String(), "String": x.String(), "BracketString": x.BracketString()})
+	// the long-named builder methods, Append and the parsers for bytes and with Must are other
+	// functions than the ones used below: they have to give the same expression and text
+	if pv, stack := vrt.Catch(func() {
+		if xl := cs.Path.BuildLong(); xl.String() != x.String() || xl.BracketString() != x.BracketString() || len(xl) != len(x) {
+			c.Fail("builders-differ", "constructors", fmt.Sprintf("one-letter builders give %s, long-named builders %s (recipe %s)", x.String(), xl.String(), cs.Path), tags...)
+		}
+		if a := string(x.Append(nil)); a != x.String() {
+			c.Fail("append-differs", "Expr.Append", fmt.Sprintf("Append(nil)=%q String()=%q", a, x.String()), tags...)
+		}
+		if a := string(x.Append([]byte("pre"), true)); a != "pre"+x.BracketString() {
+			c.Fail("append-differs", "Expr.Append", fmt.Sprintf("Append(pre, true)=%q BracketString()=%q", a, x.BracketString()), tags...)
+		}
+		if y1, err1 := jp.ParseString(x.String()); err1 == nil {
+			y2, err2 := jp.Parse([]byte(x.String()))
+			if err2 != nil || y2.String() != y1.String() {
+				c.Fail("parsers-differ", "jp.Parse", fmt.Sprintf("ParseString(%q) gives %s, Parse gives %v %v", x.String(), y1.String(), y2, err2), tags...)
+			}
+			if y3 := jp.MustParseString(x.String()); y3.String() != y1.String() {
+				c.Fail("parsers-differ", "jp.MustParseString", fmt.Sprintf("ParseString(%q) gives %s, MustParseString gives %s", x.String(), y1.String(), y3.String()), tags...)
+			}
+		}
+	}); pv != nil {
+		c.Fail("panic", "builders / Append / Parse", fmt.Sprintf("%v at %s; %s", pv, stack, cs.Path), tags...)
+	}
 	for _, form := range []struct {
 		name string
 		f    func(jp.Expr) string
